@@ -410,6 +410,24 @@ int bufr_finalize_template( BUFR_Template *tmplt )
       }
 
    tmplt->flags |= flags;
+/*
+ * a delayed replication may also come from inside a Table D sequence, 
+ * which bufr_check_sequence() does not look into
+ */
+   if ((tmplt->flags & HAS_DELAYED_REPLICATION) == 0)
+      {
+      ListNode *node = lst_firstnode( gabarit->list );
+      while ( node )
+         {
+         bc = (BufrDescriptor *)node->data;
+         if ((DESC_TO_F( bc->descriptor ) == 1)&&(DESC_TO_Y( bc->descriptor ) == 0))
+            {
+            tmplt->flags |= HAS_DELAYED_REPLICATION;
+            break;
+            }
+         node = lst_nextnode( node );
+         }
+      }
    if ( tmplt->gabarit )
       {
       bufr_free_desc_array( tmplt->gabarit );
